@@ -26,6 +26,9 @@ type Site struct {
 	File string `json:"file"`
 	Line int    `json:"line"`
 	Func string `json:"func"`
+	// Atomic: the statement performs a sync/atomic operation; the schedule
+	// generators treat the yield right after it as a preferred preemption point.
+	Atomic bool `json:"atomic,omitempty"`
 }
 
 // Info is what the instrumenter reports.
@@ -35,6 +38,7 @@ type Info struct {
 	PoolGets    int      `json:"pool_gets"`
 	PoolPuts    int      `json:"pool_puts"`
 	SyncRewrite int      `json:"sync_rewrites"`
+	AtomicSites int      `json:"atomic_sites"`
 	Knobs       []string `json:"knobs"`
 	Globals     []string `json:"globals"`
 	Unmonitored []string `json:"globals_unmonitored"`
@@ -53,6 +57,7 @@ type fileJob struct {
 	file  *ast.File
 	edits []edit
 	pkg   string // "" root, "context"
+	atom  []int  // source offsets of sync/atomic operations
 }
 
 var modRe = regexp.MustCompile(`(?m)^module\s+(\S+)`)
@@ -211,7 +216,16 @@ func Run(repo, out, rtDir string) (*Info, error) {
 			return nil, err
 		}
 		if e.Name() == "sites_gen.go" {
-			b = []byte(fmt.Sprintf("package verifrt\n\n// NumSites is the number of yield sites in the instrumented copy.\nconst NumSites = %d\n", id))
+			var ab strings.Builder
+			na := 0
+			for _, st := range info.Sites {
+				if st.Atomic {
+					fmt.Fprintf(&ab, "%d, ", st.ID)
+					na++
+				}
+			}
+			info.AtomicSites = na
+			b = []byte(fmt.Sprintf("package verifrt\n\n// NumSites is the number of yield sites in the instrumented copy.\nconst NumSites = %d\n\n// AtomicSiteIDs lists the statements that perform a sync/atomic operation.\nvar AtomicSiteIDs = []uint32{%s}\n", id, ab.String()))
 		}
 		if err := os.WriteFile(filepath.Join(rtOut, e.Name()), b, 0o644); err != nil {
 			return nil, err
@@ -284,6 +298,8 @@ func funcName(fd *ast.FuncDecl) string {
 }
 
 func yieldEdits(fset *token.FileSet, j *fileJob, id *int, info *Info) {
+	type span struct{ lo, hi, site int }
+	var spans []span
 	var curFn *ast.FuncDecl
 	add := func(list []ast.Stmt) {
 		for _, s := range list {
@@ -295,8 +311,23 @@ func yieldEdits(fset *token.FileSet, j *fileJob, id *int, info *Info) {
 			p := fset.Position(s.Pos())
 			j.edits = append(j.edits, edit{p.Offset, p.Offset, fmt.Sprintf("verifrt.Yield(%d); ", *id)})
 			info.Sites = append(info.Sites, Site{ID: *id, File: j.rel, Line: p.Line, Func: funcName(curFn)})
+			spans = append(spans, span{p.Offset, fset.Position(s.End()).Offset, *id})
 		}
 	}
+	first := len(info.Sites)
+	defer func() {
+		for _, off := range j.atom {
+			best := -1
+			for i, sp := range spans {
+				if sp.lo <= off && off < sp.hi && (best < 0 || sp.hi-sp.lo < spans[best].hi-spans[best].lo) {
+					best = i
+				}
+			}
+			if best >= 0 {
+				info.Sites[first+best].Atomic = true
+			}
+		}
+	}()
 	for _, d := range j.file.Decls {
 		fd, _ := d.(*ast.FuncDecl)
 		curFn = fd
@@ -312,6 +343,14 @@ func yieldEdits(fset *token.FileSet, j *fileJob, id *int, info *Info) {
 			return true
 		})
 	}
+}
+
+func isAtomicType(t types.Type) bool {
+	if p, ok := t.(*types.Pointer); ok {
+		t = p.Elem()
+	}
+	n, ok := t.(*types.Named)
+	return ok && n.Obj().Pkg() != nil && n.Obj().Pkg().Path() == "sync/atomic"
 }
 
 func isSyncType(t types.Type, name string) (ptr bool, ok bool) {
@@ -352,7 +391,20 @@ func seamEdits(fset *token.FileSet, j *fileJob, ti *types.Info, info *Info) erro
 				return true
 			}
 			sel := ti.Selections[se]
-			if sel == nil || sel.Kind() != types.MethodVal {
+			if sel == nil {
+				// package-level function of sync/atomic (atomic.LoadPointer, ...)
+				if id, ok := se.X.(*ast.Ident); ok {
+					if pn, ok := ti.Uses[id].(*types.PkgName); ok && pn.Imported().Path() == "sync/atomic" {
+						j.atom = append(j.atom, fset.Position(x.Pos()).Offset)
+					}
+				}
+				return true
+			}
+			if sel.Kind() != types.MethodVal {
+				return true
+			}
+			if isAtomicType(sel.Recv()) {
+				j.atom = append(j.atom, fset.Position(x.Pos()).Offset)
 				return true
 			}
 			recv := sel.Recv()
